@@ -123,6 +123,12 @@ theorem callback_only_from_frames {s : Srv} (h : Server.WF s) (is : List Input) 
     ∃ s₀ t v, FrameAt dec cfg s is s₀ t v ∧ Server.WF s₀ ∧ Fires dec cfg s₀ t v n args :=
   (callback_source dec cfg).2 s is h n args hm
 
+example : Out.callback 7 [.str ['x']] ∈
+    (run dec0 cfg0 demo1 [.frame tB (.str ['a']), .frame tA (.str ['a'])]).2 := by
+  have : (run dec0 cfg0 demo1 [.frame tB (.str ['a']), .frame tA (.str ['a'])]).2 =
+      [Out.callback 7 [.str ['x']]] := by rfl
+  rw [this]; simp
+
 /-- After the callback fired, `(sid, id)` is not outstanding any more … -/
 theorem popped {s : Srv} (sid : Sid) (i : Nat) : ∀ tok, (sid, i, tok) ∉ (popCb s sid i).cbs := by
   intro tok hm
@@ -151,6 +157,12 @@ theorem at_most_once {s s₀ s₁ : Srv} {t : Eio} {v : J} {nsp : Option Str} {d
   rw [hr, hs] at h1
   cases h1; cases h2
   exact popped sid i tok
+
+example : sidOf demo1.rooms nsRoot tA = some (sidName 0) ∧
+    (popCb demo1 (sidName 0) 1).rooms = demo1.rooms := ⟨by decide, rfl⟩
+example : CompletesAck dec0 (popCb demo1 (sidName 0) 1) tA (.str ['a']) none (some 1)
+    (some (.arr [.str ['x']])) (popCb demo1 (sidName 0) 1) :=
+  .text (p := ⟨ACK, none, some 1, some (.arr [.str ['x']])⟩) (n := 0) (by decide) rfl rfl
 
 -- the ACK for id 9 from transport A, and the ACK for id 1 from the *other* transport B, are foreign
 example : CompletesAck dec0 demo1 tA (.str ['b']) none (some 9) (some (.arr [])) demo1 :=
